@@ -26,11 +26,11 @@ CHECKS = {
    "Exploration over argument tuples of compress_in_place/compress_xof/hash_many/xof_many (counters around 2^32 carries in every lane, all flag bytes, block lengths 0..=64, 0..=35 inputs at arbitrary alignments) executed on every kernel reachable here: Platform methods at each level in three builds (Unix asm, Rust intrinsics, C AVX-512 intrinsics) and raw FFI to C portable, C intrinsics, Unix assembly and the Windows-GNU assembly (assembled to ELF, called through extern \"win64\").",
    SPEC + DBG + "MSVC .asm files, NEON and wasm kernels cannot be executed in this sandbox.", "DESIGN.md §3 C05"),
  "C06": C("model-based property testing of C API histories via FFI (spec model + Rust crate as differential oracle)",
-   "Exploration over C histories (4 initialisers, updates, finalize/finalize_seek with seeks up to 2^64-1, reset, struct copy, zero-length calls) x CPU-feature mask x {assembly, C-intrinsics} library builds compiled from /repo/c at check time; outputs vs spec S[seek..seek+n] and vs the Rust crate; hasher bytes compared across finalize; reset hasher in lockstep with a fresh twin.",
+   "Exploration over C histories (4 initialisers, updates, finalize/finalize_seek with seeks up to 2^64-1, reset, struct copy, zero-length calls) x CPU-feature mask x {assembly, C-intrinsics} library builds compiled from /repo/c at check time; outputs vs spec S[seek..seek+n] and vs the Rust crate; hasher bytes compared across finalize; reset hasher in lockstep with a fresh twin; single updates beyond 2^32 bytes; plus a clang ASan+UBSan+libFuzzer target over the C sources (engine/cfuzz/c_api_fuzz.c) with the spec model as in-target oracle (corpus replay + fixed executions).",
    SPEC + "Trusts gcc and the symbol-prefixing build (objcopy --redefine-syms) in engine/harness/build.rs.", "DESIGN.md §3 C06"),
  "C07": C("property-based testing with fault observation: guard-page placement, register-sentinel trampolines, forked execution",
-   "Exploration: C05 tuples and C06 histories are re-run in a forked server process with every buffer (inputs, pointer array, key, cv, block, output, the blake3_hasher object) flush against PROT_NONE pages (end- or start-flush) and canaries on the open side; hand-written assembly is called through trampolines that plant sentinels in all callee-saved registers of System V / Win64 and record rsp and DF. A fault, a damaged canary, a lost sentinel or a wrong result fails the case (and shrinks). Thorough: also the unsafe Rust intrinsics builds.",
-   SPEC + "Reads that stay inside the same page as another live buffer are only caught in the placement that isolates that buffer; UB without a hardware-visible symptom is out of reach (ASan/UBSan driver: see notes).", "DESIGN.md §3 C07"),
+   "Exploration: C05 tuples and C06 histories are re-run in a forked server process with every buffer (inputs, pointer array, key, cv, block, output, the blake3_hasher object) flush against PROT_NONE pages (end- or start-flush) and canaries on the open side; hand-written assembly is called through trampolines that plant sentinels in all callee-saved registers of System V / Win64 and record rsp and DF, entered at every stack alignment mod 64. The C sources (incl. C intrinsics kernels) additionally run under clang ASan+UBSan in a libFuzzer target over API histories (engine/cfuzz/c_api_fuzz.c). A fault, a sanitizer report, a damaged canary, a lost sentinel or a wrong result fails the case (and shrinks). Thorough: also the unsafe Rust intrinsics builds.",
+   SPEC + "Reads that stay inside the same page as another live buffer are only caught in the placement that isolates that buffer; UB without a symptom under guard pages (assembly) or ASan/UBSan (C sources) is out of reach.", "DESIGN.md §3 C07"),
  "C09": C("property-based testing with a recursive decomposition generator + enumerated helper lattice",
    "Exploration over random valid tree decompositions (split decisions consumed depth-first, per-leaf update splits, 4 modes), fixed power-of-two groupings, subtrees at chunk indices up to 2^54-1, and the two length helpers on a power-of-two lattice plus random u64 arguments; leaf CVs vs spec subtree CVs, roots vs spec hash/XOF, helpers vs closed forms.",
    SPEC + DBG, "DESIGN.md §3 C09"),
@@ -57,7 +57,7 @@ CHECKS = {
 
 CHECKS.update({
  "C08": C("property-based testing over schedule scripts: scripted fork-join (hook 2 and the C TBB seam) + real rayon pools, serial twin and spec as oracle",
-   "Exploration over (mode, forced SIMD level, prefix, input, suffix) x schedule, where the harness owns the order of the two halves of every recursive split: left-first / right-first / truly concurrent on two threads as a pure function of (seed, split-tree path), through a Join implementation compiled into the crate (hook 2) and through the C library's blake3_compress_subtree_wide_join_tbb seam implemented by the harness; plus update_rayon / update_mmap_rayon in pools of 1..16 threads. The multithreaded hasher must be observationally equal to a serial twin (count, hash, XOF, again after a common suffix) and to the spec.",
+   "Exploration over (mode, forced SIMD level, prefix, input, suffix) x schedule, where the harness owns the order of the two halves of every recursive split: left-first / right-first / truly concurrent on two threads as a pure function of (seed, split-tree path), through a Join implementation compiled into the crate (hook 2) and through the C library's blake3_compress_subtree_wide_join_tbb seam implemented by the harness; plus update_rayon / update_mmap_rayon in pools of 1..16 threads, and a clang ThreadSanitizer driver over the C TBB seam with every split concurrent. The multithreaded hasher must be observationally equal to a serial twin (count, hash, XOF, again after a common suffix) and to the spec.",
    SPEC + DBG + "Schedules are sampled, not enumerated: the harness controls the ORDER of halves, not instruction interleavings; data-race freedom rests on the borrow checker for safe Rust and on C07 for kernels; real oneTBB is replaced by a pthread seam.", "DESIGN.md §3 C08"),
  "C12": C("property-based testing of the real b3sum binary over generated files, flag combinations and checkfiles (spec model + verdict-by-construction oracle)",
    "Exploration: the binary compiled from /repo/b3sum/src/main.rs is run on generated files with hostile names and generated combinations of --keyed/--derive-key/--length/--seek/--no-mmap/--num-threads/--raw/--no-names/--tag; stdout must be byte-for-byte the documented line format around spec S[seek..seek+length]; its output is fed back to the real --check. Checkfiles are assembled from entries whose verdict is known by construction (good/stale/missing/directory/malformed, LF/CRLF, plain/tagged): exit status 0 iff all good, OK/FAILED lines in order, diagnostics and the WARNING count.",
@@ -66,7 +66,7 @@ CHECKS.update({
    "Exploration in-process on b3sum's filepath_to_string and parse_check_line (main.rs is include!-d unchanged): 200k paths from a hostile alphabet in both forms and three terminators must round-trip exactly when representable and be rejected otherwise; arbitrary text, near-valid lines and every single-character replace/insert/delete mutant of valid base lines must never panic, and any accepted line is verified as a certificate against the line text (so lines with several conceivable decompositions cannot raise false alarms); constructed members of the always-error classes must be rejected.",
    "Trusts the model of the documented escaping (\\\\, \\n, \\r) in the harness. Windows path normalisation is not executable here.", "DESIGN.md §3 C13"),
  "C18": C("property-based stress testing: generated per-thread programs on disjoint instances in fresh processes, spec oracle per thread",
-   "Exploration: 2-32 threads, each with its own generated program over its own Rust and C instances (one-shots, update histories incl. rayon/mmap, XOF readers, C hashers of both builds), released together by a barrier in a fresh child process so that CPU-feature detection itself races, repeated 12-40 times; every thread's outputs must equal the spec (= what it yields alone) and the process must exit cleanly.",
+   "Exploration: 2-32 threads, each with its own generated program over its own Rust and C instances (one-shots, update histories incl. rayon/mmap, XOF readers, C hashers of both builds, construct-update-finalize bursts, long streams through update_reader/mmap/rayon), released together by a barrier in a fresh child process so that CPU-feature detection itself races, repeated 12-40 times; every thread's outputs must equal the spec (= what it yields alone) and the process must exit cleanly; a failing case counts only if it shows again in amplified re-executions; plus a ThreadSanitizer driver over the C API.",
    SPEC + "Detection of a race is probabilistic: interleavings are not controlled or enumerated (see DESIGN.md §7); a bug needing one specific interleaving can be missed.", "DESIGN.md §3 C18"),
 })
 
